@@ -22,27 +22,34 @@ META = {
     'level': 'model_checking',
     'engine': 'E+S',
     'technique': 'exhaustive enumeration of (connection situation x heartbeat answer) histories over heartbeat rounds on the real '
-                 'ConnectionHeartbeat.run, plus preemption-bounded, line-granular schedule exploration of heartbeat / reactor / '
-                 'client / stop() threads',
+                 'ConnectionHeartbeat.run, plus bounded, line-granular schedule exploration of heartbeat / reactor / client / stop() '
+                 'threads',
     'text': 'E: 1-3 real handshaken connections (stream-id space of 4) in a pool-like and/or a control-connection-like holder, and '
-            'in one variant the real HostConnection pools + ControlConnection of a real Cluster; warm-up round + 2 rounds (thorough: '
-            '3 for 1-2 connections); per round and connection every situation in {idle, request outstanding, answered request during '
-            'the interval, pushed EVENT during the interval, at capacity, socket not writable, already defunct, already closed} x '
-            'every heartbeat answer in {SUPPORTED, ERROR frame, READY (unexpected), silence beyond the timeout, connection error while '
-            'waiting, peer close while waiting}, answers delivered oldest-first and newest-first; then stop().  S: 1-2 connections, '
-            'answers per round in {SUPPORTED, ERROR, silence, connection error}, delivery moments (including after the timeout) and a '
-            'concurrent client request on the same connection explored to preemption bound 1 (thorough 2); stop() after the rounds and '
-            'stop() at any moment.  Oracle per round: an idle open connection gets exactly one OPTIONS, one that received traffic '
-            'during the interval gets none (and is idle again next interval); a heartbeat answered in time leaves in_flight and the free '
-            'stream ids exactly as before and the owner is not notified; a failed / unanswered heartbeat leaves the connection defunct '
-            'and owner.return_connection(conn) called exactly once in that round; in_flight equals the number of really outstanding '
-            'requests and free + outstanding ids are exactly the ids handed out, in every round and at the end; no deadlock, no '
+            'in one variant two real HostConnection pools + the ControlConnection of a real 3-host Cluster; warm-up round + 2 rounds '
+            '(thorough: 3 for 1-2 connections); per round and connection every situation in {idle, request outstanding, answered '
+            'request during the interval, pushed EVENT during the interval, at capacity, socket not writable, already defunct, already '
+            'closed} x every heartbeat answer in {SUPPORTED, ERROR frame, READY (unexpected), silence beyond the timeout, connection '
+            'error while waiting, peer close while waiting} (full alphabet for 1-2 connections, sub-alphabets for 3 connections and the '
+            'real cluster), answers delivered oldest-first and newest-first; then stop().  S: 1-2 connections, answers per round in '
+            '{SUPPORTED, ERROR, silence, connection error}; the reactor thread delivers each answer at a moment chosen by the explorer '
+            '(before the timeout, after it, while the connection is being defuncted); a client thread does a request on the same '
+            'connection; stop() after the rounds or at any moment.  Configurations without client: every schedule with <= 1 preemption '
+            '(switches at blocking points and the choice "the wait times out now" are free); with client: <= 1 preemption with timeouts '
+            'firing only when nothing else can run, and <= 1 non-default scheduling decision with the timeout moments free (thorough: '
+            'also <= 1 preemption with everything free, and a capped second preemption/decision).  Oracle per round: an idle open '
+            'connection gets exactly one OPTIONS, one that received traffic during the interval gets none (and is idle again next '
+            'interval); a heartbeat answered in time leaves in_flight and the free stream ids exactly as before and the owner is not '
+            'notified; a failed / unanswered heartbeat leaves the connection defunct and owner.return_connection(conn) called exactly '
+            'once in that round; in_flight equals the number of really outstanding requests and free + outstanding ids are exactly the '
+            'ids handed out, in every round and at the end; in_flight never leaves [0, max] on an open connection; no deadlock, no '
             'exception escaping a thread, no round aborted by a swallowed exception; stop() ends the thread.',
     'note': 'ConnectionHeartbeat is re-based on the virtual Thread class (same function objects); Event.wait with a negative timeout '
             'returns at once as threading.Event does.  Connections that cannot be sent a heartbeat (at capacity, socket not writable) '
             'may either fail (defunct + owner notified once) or be left alone with unchanged capacity.  Notification of owners about '
-            'connections that were already defunct/closed before the round is recorded, not demanded.  In the S layer the idle/busy '
-            'verdict is demanded only when the traffic fell entirely inside / entirely outside the interval.',
+            'connections that were already defunct/closed before the round is recorded, not demanded.  A SUPPORTED whose delivery '
+            'overlaps the end of the wait may count as in time or late; the idle/busy verdict is demanded only when the traffic fell '
+            'entirely inside / entirely outside the interval.  After the last judged round the interval wait does not time out again '
+            '(stop() is called first).  Protocol v4 connections and HostConnection pools only (no legacy v1/v2 HostConnectionPool).',
     'design_ref': 'C44',
 }
 
